@@ -46,11 +46,89 @@ def mirror(root: Path, edits: Dict[str, str]) -> Path:
     return tmp
 
 
+def apply_unified(patch: str, root: Path) -> Optional[Dict[str, str]]:
+    """Apply a unified diff (as written by `git diff`) to the files under `root`, in memory.
+    Hunks must match exactly (context and removed lines), at the stated line or anywhere the
+    block occurs exactly once.  Returns {rel: new text}, or None when a hunk does not apply."""
+    import re
+
+    out: Dict[str, str] = {}
+    files = re.split(r"^diff --git .*$", patch, flags=re.M)[1:]
+    for f in files:
+        m = re.search(r"^\+\+\+ b/(.+)$", f, flags=re.M)
+        m0 = re.search(r"^--- (?:a/(.+)|/dev/null)$", f, flags=re.M)
+        if not m or not m0 or m0.group(1) is None or m0.group(1) != m.group(1):
+            return None  # creations, deletions and renames are not supported
+        rel = m.group(1)
+        path = root / rel
+        if not path.exists():
+            return None
+        lines = out.get(rel, path.read_text()).split("\n")
+        hunks = re.split(r"^@@ -(\d+)(?:,\d+)? \+\d+(?:,\d+)? @@.*$", f, flags=re.M)[1:]
+        shift = 0
+        for start, body in zip(hunks[0::2], hunks[1::2]):
+            old, new = [], []
+            for l in body.split("\n")[1:]:
+                if l.startswith("\\"):
+                    continue
+                if l.startswith("-"):
+                    old.append(l[1:])
+                elif l.startswith("+"):
+                    new.append(l[1:])
+                elif l.startswith(" "):
+                    old.append(l[1:])
+                    new.append(l[1:])
+                elif l == "":
+                    # a blank context line whose leading space was stripped, or the end of the hunk
+                    old.append("")
+                    new.append("")
+            while old and new and old[-1] == "" and new[-1] == "":
+                old.pop()
+                new.pop()
+            at = int(start) - 1 + shift
+            if lines[at : at + len(old)] != old:
+                cands = [i for i in range(len(lines) - len(old) + 1) if lines[i : i + len(old)] == old]
+                if len(cands) != 1:
+                    return None
+                at = cands[0]
+            lines[at : at + len(old)] = new
+            shift += len(new) - len(old)
+        out[rel] = "\n".join(lines)
+    return out or None
+
+
+def corpus_variants(prop: str) -> List[dict]:
+    """Patch-based variants: the confirmed seeded changes for this property (must be reported) and the
+    behaviour-preserving refactorings anchored at it (must leave the verdict unchanged)."""
+    import json
+
+    base = Path(__file__).resolve().parent.parent
+    out = []
+    for kind, sub in (("break", "seeded"), ("benign", "benign")):
+        d = base / sub
+        if not d.exists():
+            continue
+        for v in sorted(d.iterdir()):
+            mp, pp = v / "meta.json", v / "patch.diff"
+            if not (mp.exists() and pp.exists()):
+                continue
+            meta = json.loads(mp.read_text())
+            if meta.get("property") != prop or meta.get("excluded_from_selftest"):
+                continue
+            out.append(dict(prop=prop, kind=kind, name=f"{sub}/{v.name}", patch=pp.read_text(), rule=prop, file="", old="", new="", accept_error=False))
+    return out
+
+
 def _run_variant(args) -> dict:
     prop, v, root = args
     from . import check as chk
     from .rules import common
 
+    if v.get("patch"):
+        edits = apply_unified(v["patch"], Path(root))
+        if edits is None:
+            return dict(name=v["name"], status="skipped", why="the patch does not apply to the current tree")
+        return _judge(prop, v, root, edits)
     rel, old, new = v["file"], v["old"], v["new"]
     src = (Path(root) / rel).read_text()
     if v.get("regex"):
@@ -63,7 +141,14 @@ def _run_variant(args) -> dict:
         if src.count(old) != 1:
             return dict(name=v["name"], status="skipped", why=f"anchor text occurs {src.count(old)} times in {rel}")
         edited = src.replace(old, new)
-    tmp = mirror(Path(root), {rel: edited})
+    return _judge(prop, v, root, {rel: edited})
+
+
+def _judge(prop: str, v: dict, root, edits: Dict[str, str]) -> dict:
+    from . import check as chk
+    from .rules import common
+
+    tmp = mirror(Path(root), edits)
     try:
         common._noreturn_cache.clear()
         try:
@@ -81,6 +166,8 @@ def _run_variant(args) -> dict:
         if v["kind"] == "break":
             want = v["rule"]
             hit = [o for o in bad if o.rule.startswith(want)]
+            if v.get("patch"):
+                hit = bad
             if not hit:
                 return dict(name=v["name"], status="FAILED", why=f"expected rule {want} to fire; fired: {fired or 'nothing'}")
             return dict(name=v["name"], status="ok", fired=fired, detail=hit[0].detail[:160])
@@ -99,7 +186,7 @@ def variants_for(prop: str) -> List[dict]:
 
 
 def run_for(prop: str, root: Path = REPO, jobs: int = 8) -> dict:
-    vs = variants_for(prop)
+    vs = variants_for(prop) + corpus_variants(prop)
     t0 = time.time()
     results = []
     if vs:
